@@ -228,7 +228,7 @@ fn spline_same<T>(a: &PPSpline<T>, b: &PPSpline<T>, same: impl Fn(&T, &T) -> boo
 /// the two untagged paths: serde_json (what the JSON trait does) and bincode (the pickle state)
 fn paths<T: Serialize + DeserializeOwned>(o: &T) -> Result<(T, T, String), String> {
     let js = serde_json::to_string(o).map_err(|e| format!("to_json: {}", e))?;
-    let j: T = serde_json::from_str(&js).map_err(|e| format!("from_json: {} (text: {})", e, &js[..js.len().min(300)]))?;
+    let j: T = serde_json::from_str(&js).map_err(|e| format!("from_json: {} (text: {})", e, crate::util::clip(&js, 300)))?;
     let bytes = bincode::serialize(o).map_err(|e| format!("bincode serialize: {}", e))?;
     let b: T = bincode::deserialize(&bytes).map_err(|e| format!("bincode deserialize: {}", e))?;
     Ok((j, b, js))
@@ -236,7 +236,7 @@ fn paths<T: Serialize + DeserializeOwned>(o: &T) -> Result<(T, T, String), Strin
 
 fn tagged(o: VerifObj) -> Result<(VerifObj, String), String> {
     let js = o.to_json().map_err(|e| format!("tagged to_json: {}", e))?;
-    let back = VerifObj::from_json(&js).map_err(|e| format!("tagged from_json: {} (text: {})", e, &js[..js.len().min(300)]))?;
+    let back = VerifObj::from_json(&js).map_err(|e| format!("tagged from_json: {} (text: {})", e, crate::util::clip(&js, 300)))?;
     Ok((back, js))
 }
 
@@ -430,7 +430,7 @@ fn run_kind(_: (), kind: &str, r: &mut Rng) -> Outcome {
                     Err(e) => return fail("serde", "error", json!({"object": d, "error": e})),
                 };
                 if !(j == o) || !cal_identical(&j, &o) || !behaves_same(&j, &o, r) {
-                    return fail("json", "not-equal", json!({"object": d, "json": &js[..js.len().min(400)]}));
+                    return fail("json", "not-equal", json!({"object": d, "json": crate::util::clip(&js, 400)}));
                 }
                 if !(b == o) || !cal_identical(&b, &o) {
                     return fail("bincode", "not-equal", json!({"object": d}));
@@ -598,10 +598,10 @@ fn run_kind(_: (), kind: &str, r: &mut Rng) -> Outcome {
                 };
                 let j = match VerifCurve::from_json_plain(&js) {
                     Ok(c) => c,
-                    Err(e) => return fail("json", "error", json!({"object": d, "error": e, "json": &js[..js.len().min(400)]})),
+                    Err(e) => return fail("json", "error", json!({"object": d, "error": e, "json": crate::util::clip(&js, 400)})),
                 };
                 if let Err(w) = curve_same(&j, o, &qs, &co.rule, r) {
-                    return fail("json", "not-equal", json!({"object": d, "what": w, "json": &js[..js.len().min(600)]}));
+                    return fail("json", "not-equal", json!({"object": d, "what": w, "json": crate::util::clip(&js, 600)}));
                 }
                 if !j.eq(o) || !o.eq(&j) {
                     return fail("json", "not-equal-by-==", json!({"object": d}));
@@ -657,7 +657,7 @@ fn run_kind(_: (), kind: &str, r: &mut Rng) -> Outcome {
                                 Err(e) => return fail("serde", "error", json!({"object": d, "error": e})),
                             };
                             if !spline_same(&j, &o, $same) || !(j == o) {
-                                return fail("json", "not-equal", json!({"object": d, "json": &js[..js.len().min(500)]}));
+                                return fail("json", "not-equal", json!({"object": d, "json": crate::util::clip(&js, 500)}));
                             }
                             if !spline_same(&b, &o, $same) || !(b == o) {
                                 return fail("bincode", "not-equal", json!({"object": d}));
